@@ -200,11 +200,16 @@ func execute(r *core.Run, c *Case) {
 		viaContent, cerr = env.Content()
 		content, verr = env.Verify()
 	})
+	fail := func(sig, what string) { r.Violation(sig+":"+mtName(c.MT), c.desc()+": "+what, c) }
 	if p != nil {
 		r.Count("panicked", 1)
+		if len(c.CritAdd) == 0 && !hasDelicate(c) {
+			// a validly signed envelope with extra headers must surface them: a
+			// crash does not
+			fail("well-formed-panicked", "a validly signed envelope whose only particularity is its extra protected headers made the library panic: "+p.Value)
+		}
 		return
 	}
-	fail := func(sig, what string) { r.Violation(sig+":"+mtName(c.MT), c.desc()+": "+what, c) }
 	phantom, specCrit := false, false
 	present := map[string]bool{}
 	for _, e := range c.Extras {
